@@ -10,6 +10,8 @@ pub mod c09;
 pub mod c10;
 pub mod c13;
 pub mod c14;
+pub mod c15;
+pub mod c16;
 pub mod c20;
 
 use crate::engine::sched::{Choice, Cost, ScenarioFactory};
@@ -43,6 +45,8 @@ dispatch! {
     "C10" => c10,
     "C13" => c13,
     "C14" => c14,
+    "C15" => c15,
+    "C16" => c16,
     "C20" => c20,
 }
 
